@@ -242,6 +242,8 @@ where
                     self.b[self.l[k]] -= 1;
                     self.b[j] += 1;
                     while self.b[self.a_upper] == 0 {
+                        #[cfg(feature = "verif_hooks")]
+                        crate::verif::tick(crate::verif::Event::SmhUpperDecrease);
                         self.a_upper = self.a_upper - 1;
                     }
                     self.l[k] = j;
